@@ -2,7 +2,7 @@
    implementation's outputs). *)
 From Coq Require Import NArith List Bool String.
 From DBG Require Import Interop.Val Spec.Dna Spec.GraphIndex Packed.ExtsModel Algo.Compress Algo.GraphModel
-  Algo.Recompress Check.RecompCheck Check.RecompLooseCheck.
+  Algo.Recompress Check.RecompCheck Check.RecompLooseCheck Check.RecompOrder.
 Import ListNotations.
 Open Scope N_scope.
 
@@ -56,6 +56,9 @@ Definition recomp_ops : list (string * handler) :=
     ("chk.c09.payload"%string, fun a => match a with [VN k; st; g; o] =>
         match vbool st, rv_graph g, rv_graph o with
         | Some s, Some G, Some Og => Some (ofbool (chk_payload (N.to_nat k) s G Og)) | _, _, _ => None end | _ => None end);
+    ("chk.c09.payload_order"%string, fun a => match a with [VN k; st; g; o] =>
+        match vbool st, rv_graph g, rv_graph o with
+        | Some s, Some G, Some Og => Some (ofbool (chk_payload_order (N.to_nat k) s G Og)) | _, _, _ => None end | _ => None end);
     ("chk.c09.idempotent"%string, fun a => match a with [VN k; st; g; o] =>
         match vbool st, rv_graph g, rv_graph o with
         | Some s, Some G, Some Og => Some (ofbool (chk_same_nodes (N.to_nat k) s G Og)) | _, _, _ => None end | _ => None end);
